@@ -1,7 +1,9 @@
 /-
   C12 — Checkpoint serialisation round-trips every supported value or fails loudly.
   Property theorems.  Model: EinoV/Model/C12.lean (describes internal/serialization after
-  fixes/C12-container-pointernum.diff and fixes/C12-nil-in-pointer-chain.diff).
+  fixes/C12-container-pointernum.diff, fixes/C12-nil-in-pointer-chain.diff and — for the
+  hypothesis `Ctx.ok` that no type is registered under the empty key —
+  fixes/C12-empty-registry-key.diff).
   Source facts: EinoV/Gen/FactsC12.lean (regenerated from /repo on every run).
 
   Trusted base specific to C12 (`JLayer.OK`): for basic kinds, `sonic.Unmarshal` reads back
@@ -25,13 +27,15 @@ def srcFacts : Facts := factsOf FactsC12.decodeUsesPointerNum FactsC12.nilChainR
 /-- The regenerated facts are the ones the model was written for: the registry tables of
     the two `init` functions, the decode dispatch order, the use of PointerNum in every
     decode branch, the NilElemPointerNum bookkeeping, and the registry discipline of
-    `GenericRegister` / `RegisterSerializableType`. -/
+    `GenericRegister` / `RegisterSerializableType` (a key, a type registered at most once, no
+    empty key) that makes every registry the code can build satisfy `Ctx.ok`. -/
 theorem facts_match :
     FactsC12.registry = registry ∧ FactsC12.composeRegistry = composeRegistry
     ∧ FactsC12.decodeDispatch = decodeDispatch
     ∧ FactsC12.decodeUsesPointerNum = decodeUsesPointerNum
     ∧ FactsC12.nilChainRecorded = nilChainRecorded
-    ∧ FactsC12.registerForwards = true ∧ FactsC12.registerRejectsDuplicates = true := by
+    ∧ FactsC12.registerForwards = true ∧ FactsC12.registerRejectsDuplicates = true
+    ∧ FactsC12.registerRejectsEmptyKey = true := by
   decide
 
 /-- every decode branch applies `resolvePointerNum(v.PointerNum, …)` and nil pointers inside
